@@ -1,0 +1,30 @@
+// Copyright © 2022-2026 Obol Labs Inc. Licensed under the terms of a Business Source License 1.1
+
+//go:build verif
+
+// Verification contracts (comments only; read by /verif/govc, never compiled into charon).
+package keystore
+
+//@ pure path.Join fmt.Sprintf
+
+// The i-th secret (0-based) is written, and only it, to the file numbered i: callers (create cluster, DKG,
+// combine) rely on keystore-V.json holding the share of validator V.
+//@ func storeKeysInternal
+//@ props C12
+//@ callreq fork: a1.index == ncalls(fork) && a1.secret == secrets[ncalls(fork)]
+//@ ensures result == nil ==> ncalls(fork) == len(secrets)
+//@ loop 1 invariant ncalls(fork) == $i
+
+//@ func storeKeysInternal$1
+//@ props C12
+//@ callreq Encrypt: a1 == d.secret
+//@ callreq os.WriteFile: a1 == path.Join(dir, fmt.Sprintf(filenameFmt, d.index))
+//@ callreq storePassword: a1 == path.Join(dir, fmt.Sprintf(filenameFmt, d.index)) && a2 == password
+//@ ensures r1 == nil ==> ncalls(Encrypt) == 1 && ncalls(os.WriteFile) == 1 && ncalls(storePassword) == 1
+
+//@ pure strings.Replace
+// the password file sits next to its keystore file
+//@ func storePassword
+//@ props C12
+//@ callreq os.WriteFile: a1 == strings.Replace(keyFile, ".json", ".txt", 1) && a2 == []byte(password)
+//@ ensures result == nil ==> ncalls(os.WriteFile) == 1
